@@ -115,6 +115,81 @@ fn feedback_families(th: bool, last_pos: &[Op], oracles: Vec<Oracle>) -> Vec<(Fa
   fams
 }
 
+/// the subscriber unsubscribes its own subscription from inside one of its callbacks (at its
+/// 1st / 2nd item): the rest of the emission that is in progress must not arrive, and everything
+/// upstream is torn down / released as for an unsubscribe from outside
+fn self_unsub_families(th: bool, last_pos: &[Op], oracles: Vec<Oracle>) -> Vec<(Family, usize)> {
+  let mut w1 = vec![];
+  for sc in wf_scripts(&[1, 2], if th { 3 } else { 2 }, &[Ending::Complete, Ending::Error, Ending::Silent]) {
+    for trig in [Trig::Item(1), Trig::Item(2)] {
+      for k in [SrcKind::Hot, SrcKind::Subject, SrcKind::BehaviorSubject, SrcKind::ReplaySubject] {
+        let mut acts = vec![Act::SelfUnsub { outer: 0, trig }, Act::Sub(0)];
+        acts.extend(sc.iter().map(|e| Act::Emit(0, e.clone())));
+        acts.push(Act::Emit(0, Ev::n(3)));
+        w1.push(World { srcs: vec![k], acts });
+      }
+    }
+  }
+  let w1 = Arc::new(w1);
+  let mut fams = vec![];
+  let mut p1 = vec![Node::Src(0)];
+  p1.extend(depth1(last_pos));
+  fams.push((Family { name: "the subscriber unsubscribes itself from a callback, depth 0-1".into(), pipelines: p1, worlds: w1.clone(), oracles: oracles.clone() }, 1));
+  let red = reduced_ops();
+  fams.push((Family { name: "the subscriber unsubscribes itself from a callback, depth 2 (reduced catalogue)".into(), pipelines: depth2(&red, &red), worlds: w1.clone(), oracles: oracles.clone() }, 2));
+  let mut w2 = vec![];
+  let per_src = wf_scripts(&[1], 2, &[Ending::Complete, Ending::Error, Ending::Silent]);
+  for a in &per_src {
+    for b in &per_src {
+      for il in interleavings(&[a.clone(), offset(b, 10)]).into_iter().step_by(if th { 1 } else { 2 }) {
+        for trig in [Trig::Item(1), Trig::Item(2)] {
+          let mut acts = vec![Act::SelfUnsub { outer: 0, trig }, Act::Sub(0)];
+          acts.extend(il.iter().cloned());
+          acts.push(Act::Emit(0, Ev::n(3)));
+          acts.push(Act::Emit(1, Ev::n(13)));
+          w2.push(World { srcs: vec![SrcKind::Hot, SrcKind::Hot], acts });
+        }
+      }
+    }
+  }
+  let needs_reference = oracles.iter().any(|o| matches!(o, Oracle::Functional | Oracle::Teardown | Oracle::Independence));
+  let two = |op: &Op| Node::opx(op.clone(), Node::Src(0), vec![Node::Src(1)]);
+  let mut p2: Vec<Node> = (if needs_reference { multi_ops() } else { multi_ops_all() }).iter().map(two).collect();
+  p2.push(Node::op(Op::FlatMap(Inner::Hot { base: 1, n: 1 }), Node::Src(0)));
+  p2.push(Node::op(Op::FlatMap(Inner::Cold2), Node::Src(0)));
+  fams.push((Family { name: "the subscriber unsubscribes itself from a callback, combining operators and flat_map".into(), pipelines: p2, worlds: Arc::new(w2), oracles }, 1));
+  fams
+}
+
+/// window_with_count / group_by: the subscriber ends the inner observables it was handed (the
+/// first, the second, both) while the outer subscription goes on
+fn inner_unsub_families(th: bool, oracles: Vec<Oracle>) -> Vec<(Family, usize)> {
+  let mut w = vec![];
+  for sc in wf_scripts(&[1, 2], if th { 4 } else { 3 }, &[Ending::Complete, Ending::Error, Ending::Silent]) {
+    for which in [vec![1u32], vec![2], vec![1, 2]] {
+      for pos in 0..=sc.len() {
+        for k in [SrcKind::Hot, SrcKind::Subject] {
+          let mut acts = vec![Act::Sub(0)];
+          for (i, e) in sc.iter().enumerate() {
+            if i == pos {
+              acts.extend(which.iter().map(|x| Act::InnerUnsub(0, *x)));
+            }
+            acts.push(Act::Emit(0, e.clone()));
+          }
+          if pos == sc.len() {
+            acts.extend(which.iter().map(|x| Act::InnerUnsub(0, *x)));
+          }
+          w.push(World { srcs: vec![k], acts });
+        }
+      }
+    }
+  }
+  let direct = direct_ops(th);
+  let mut p = depth1(&direct);
+  p.extend(depth2(&reduced_ops(), &direct));
+  vec![(Family { name: "window_with_count / group_by: inner observables unsubscribed early, the outer subscription goes on".into(), pipelines: p, worlds: Arc::new(w), oracles }, 2)]
+}
+
 fn run_families(prop: &str, r: &mut Report, fams: Vec<(Family, usize)>) {
   let stop = AtomicBool::new(false);
   let mut per = vec![];
@@ -173,6 +248,7 @@ pub fn check(prop: &str, tier: &str) -> Option<Report> {
         fams.push((Family { name: "depth 1, bursts of 40 and 70 items".into(), pipelines: depth1(&last_pos), worlds: Arc::new(wb), oracles: vec![Oracle::Functional] }, 1));
       }
       fams.extend(connectable_families(&w2, vec![Oracle::Functional]));
+      fams.extend(inner_unsub_families(th, vec![Oracle::Functional]));
       run_families(prop, &mut r, fams);
     }
     "C01" => {
@@ -424,6 +500,8 @@ pub fn check(prop: &str, tier: &str) -> Option<Report> {
       fams.push((Family { name: "depth 2, other".into(), pipelines: depth2(&single, &d1_other), worlds: w_noend.clone(), oracles: oracle.clone() }, 2));
       fams.push((Family { name: "depth 2, self-ending operator below".into(), pipelines: depth2(&d1_end, &singles_noend), worlds: w_noend.clone(), oracles: oracle.clone() }, 2));
       fams.extend(connectable_families(&w_noend, oracle.clone()));
+      fams.extend(self_unsub_families(th, &last_pos, oracle.clone()));
+      fams.extend(inner_unsub_families(th, oracle.clone()));
       // combining operators: unsubscribe at every position of every interleaving (2 hot sources)
       let mf = multi_families(false, false, oracle.clone());
       for (f, d) in mf {
